@@ -238,6 +238,13 @@ struct St {
     p2uid: HashMap<String, u32>,
     flows: usize,
     closes: usize,
+    /// when the case asks for it: a COPY of the first flow's handle kept outside the runtime (a handle that outlives its owner)
+    park: bool,
+}
+
+thread_local! {
+    /// the parked handle (a `Datapath` is not `Send`; the runtime runs inline on the thread of the case)
+    static PARKED: std::cell::RefCell<Option<Datapath<Sock>>> = std::cell::RefCell::new(None);
 }
 
 type Sh = Arc<Mutex<St>>;
@@ -413,6 +420,14 @@ impl<const N: usize> CongAlg<Sock> for Alg<N> {
                 control.get_sock_id()
             ),
         );
+        if lk(&self.sh).park {
+            PARKED.with(|p| {
+                let mut p = p.borrow_mut();
+                if p.is_none() {
+                    *p = Some(control.clone());
+                }
+            });
+        }
         let mut f = Fl { id, dp: control, cfg: self.cfg.clone(), cur: None, scopes: HashMap::new(), sh: self.sh.clone() };
         f.exec(false, None);
         f
@@ -599,6 +614,12 @@ pub fn run(args: &[&str]) -> String {
     }
     let flag = Arc::new(AtomicBool::new(true));
     let sh: Sh = Arc::new(Mutex::new(St::default()));
+    // two variations chosen by the length of the script (so that the model can follow): every third case parks a copy of the
+    // first flow's handle outside the runtime; every other case registers the algorithms BY REFERENCE (`&'static A: CongAlg`)
+    let n_items = items.len();
+    lk(&sh).park = n_items % 3 == 0;
+    PARKED.with(|p| *p.borrow_mut() = None);
+    let by_ref = n_items % 2 == 1;
     let sock = Sock(Arc::new(SockInner { script: Mutex::new(items), fail: AtomicUsize::new(0), flag: flag.clone(), images, sh: sh.clone() }));
     {
         let mut n = NAMES.lock().unwrap_or_else(|e| e.into_inner());
@@ -627,15 +648,47 @@ pub fn run(args: &[&str]) -> String {
                 $rb.additional_alg::<Alg<$n>, Option<Alg<$n>>>(mk::<$n>(&algs, &sh))
             };
         }
-        let rb = RunBuilder::new(BackendBuilder { sock }).default_alg(default);
-        match algs.len() {
-            1 => rb.with_stop_handle(h).run(),
-            2 => add!(rb, 1).with_stop_handle(h).run(),
-            3 => add!(add!(rb, 1), 2).with_stop_handle(h).run(),
-            4 => add!(add!(add!(rb, 1), 2), 3).with_stop_handle(h).run(),
-            _ => add!(add!(add!(add!(rb, 1), 2), 3), 4).with_stop_handle(h).run(),
+        macro_rules! addr {
+            ($rb:expr, $n:literal) => {
+                $rb.additional_alg::<&'static Alg<$n>, Option<&'static Alg<$n>>>(
+                    mk::<$n>(&algs, &sh).map(|a| -> &'static Alg<$n> { Box::leak(Box::new(a)) }),
+                )
+            };
+        }
+        if by_ref {
+            let d: &'static Alg<0> = Box::leak(Box::new(default));
+            let rb = RunBuilder::new(BackendBuilder { sock }).default_alg(d);
+            match algs.len() {
+                1 => rb.with_stop_handle(h).run(),
+                2 => addr!(rb, 1).with_stop_handle(h).run(),
+                3 => addr!(addr!(rb, 1), 2).with_stop_handle(h).run(),
+                4 => addr!(addr!(addr!(rb, 1), 2), 3).with_stop_handle(h).run(),
+                _ => addr!(addr!(addr!(addr!(rb, 1), 2), 3), 4).with_stop_handle(h).run(),
+            }
+        } else {
+            let rb = RunBuilder::new(BackendBuilder { sock }).default_alg(default);
+            match algs.len() {
+                1 => rb.with_stop_handle(h).run(),
+                2 => add!(rb, 1).with_stop_handle(h).run(),
+                3 => add!(add!(rb, 1), 2).with_stop_handle(h).run(),
+                4 => add!(add!(add!(rb, 1), 2), 3).with_stop_handle(h).run(),
+                _ => add!(add!(add!(add!(rb, 1), 2), 3), 4).with_stop_handle(h).run(),
+            }
         }
     }));
+    // a handle that outlived the runtime: using it now must give an error (nothing can be sent any more), never a panic
+    let parked = PARKED.with(|p| p.borrow_mut().take());
+    let late = match parked {
+        None => "NONE",
+        Some(dp) => {
+            let sc = portus::lang::Scope::new();
+            match catch_unwind(AssertUnwindSafe(|| dp.update_field(&sc, &[("Cwnd", 1)]))) {
+                Ok(Ok(())) => "OK",
+                Ok(Err(_)) => "ERR",
+                Err(_) => "PANIC",
+            }
+        }
+    };
     let r = match res {
         Ok(Ok(())) => "OK",
         Ok(Err(_)) => "ERR",
@@ -644,7 +697,7 @@ pub fn run(args: &[&str]) -> String {
     let strong = Arc::strong_count(&flag);
     let st = lk(&sh);
     let mut out = render(&st.log, pnames.len());
-    out.push(format!("RES {} closes={} strong={}", r, st.closes, strong));
+    out.push(format!("RES {} closes={} strong={} late={}", r, st.closes, strong, late));
     out.join(" | ")
 }
 
